@@ -43,6 +43,8 @@ def canon_rh(x):
         return None
     if isinstance(x, bytes):
         return x.hex()
+    if x is False:
+        return "!invalid"      # SCM directory digest invalidated on purpose
     if isinstance(x, datetime.datetime):
         return {"forged": x.isoformat()}
     return {"other": repr(x)}
